@@ -168,7 +168,7 @@ let () =
               "OK " ^ card_str c ^ " " ^ mult_str m ^ " "
               ^ String.concat "," (List.map (fun (nm, c) -> "z" ^ string_of_int (int_of_n nm) ^ "=" ^ card_str c) els)) in
           let tag_str = function TF1 -> "F1" | TF2 -> "F2" | TF3 -> "F3" | TF4 -> "F4" | TF5 -> "F5" | TF6 -> "F6"
-                               | TF9 -> "F9" | TFor -> "FOR" | TFX -> "FX" in
+                               | TF9 -> "F9" | TFor -> "FOR" | TFX -> "FX" | TCast -> "CAST" | TIll -> "ILL" in
           let tg = List.sort_uniq compare (List.map tag_str (run_tags sch ex)) in
           let inf = inf ^ " ;" ^ String.concat "," tg in
           let rs = List.map (fun dx ->
